@@ -42,9 +42,34 @@ fn next4(r: &SmallRng) -> [u64; 4] {
     [c.next_u64(), c.next_u64(), c.next_u64(), c.next_u64()]
 }
 
+/// one case in SCAN_EVERY gets the (comparatively expensive) overlap scan
+static SCAN_EVERY: std::sync::atomic::AtomicU64 = std::sync::atomic::AtomicU64::new(4);
+
+/// Streams that are the same sequence at an offset: does the start of any generator (its next
+/// four outputs) occur within the first `horizon` outputs of another one?
+fn overlap_within(gens: &[SmallRng], horizon: usize) -> Option<(usize, usize, usize)> {
+    let mut starts = std::collections::HashMap::new();
+    for (j, r) in gens.iter().enumerate() {
+        starts.insert(next4(r), j);
+    }
+    for (i, r) in gens.iter().enumerate() {
+        let mut c = r.clone();
+        let mut w = [c.next_u64(), c.next_u64(), c.next_u64(), c.next_u64()];
+        for pos in 1..horizon {
+            w = [w[1], w[2], w[3], c.next_u64()];
+            if let Some(j) = starts.get(&w) {
+                if *j != i {
+                    return Some((i, *j, pos));
+                }
+            }
+        }
+    }
+    None
+}
+
 fn mh_case(rep: &mut Report, case: u64, g: &mut Sm64) {
     let mon = "streams";
-    let n_chains = if g.chance(0.2) { 64 } else { g.range(2, 64) };
+    let n_chains = if g.chance(0.2) { 64 } else if g.chance(0.3) { g.range(2, 8) } else { g.range(2, 64) };
     let dim = g.range(1, 4);
     let seeded = g.chance(0.6);
     // seeds whose per-chain offsets land on or wrap around structurally special values
@@ -111,6 +136,17 @@ fn mh_case(rep: &mut Report, case: u64, g: &mut Sm64) {
                 rep.count("chain_pairs_compared");
             }
         }
+        if n_chains <= 8 && case % SCAN_EVERY.load(std::sync::atomic::Ordering::Relaxed) == 0 {
+            // a long run consumes millions of draws per chain: the streams must not be one sequence at a lag
+            let gens: Vec<SmallRng> = s.chains.iter().map(|c| c.rng.clone()).chain(s.chains.iter().map(|c| c.proposal.rng.clone())).collect();
+            let horizon = 1usize << 21;
+            rep.count("generator_sets_scanned_for_overlap_within_2^21_draws");
+            if let Some((i, j, pos)) = overlap_within(&gens, horizon) {
+                let nm = |k: usize| if k < n_chains { format!("acceptance generator of chain {k}") } else { format!("proposal generator of chain {}", k - n_chains) };
+                rep.violation(&format!("{sig} two-generators-are-one-sequence-at-an-offset"), mon, case, json!({"cfg": cj, "stream": nm(i), "reaches_the_start_of": nm(j), "after_draws": pos}));
+                return;
+            }
+        }
         if !trajectories(rep, &sig, mon, case, &cj, &mut s, n_chains, &x0) {
             return;
         }
@@ -172,6 +208,14 @@ fn mh_case(rep: &mut Report, case: u64, g: &mut Sm64) {
                     return;
                 }
                 rep.count("chain_pairs_compared");
+            }
+        }
+        if n_chains <= 8 && case % SCAN_EVERY.load(std::sync::atomic::Ordering::Relaxed) == 0 {
+            let gens: Vec<SmallRng> = s.chains.iter().map(|c| c.rng.clone()).collect();
+            rep.count("generator_sets_scanned_for_overlap_within_2^21_draws");
+            if let Some((i, j, pos)) = overlap_within(&gens, 1usize << 21) {
+                rep.violation(&format!("{sig} two-generators-are-one-sequence-at-an-offset"), mon, case, json!({"cfg": cj, "stream": format!("acceptance generator of chain {i}"), "reaches_the_start_of": format!("acceptance generator of chain {j}"), "after_draws": pos}));
+                return;
             }
         }
         if !trajectories(rep, &sig, mon, case, &cj, &mut s, n_chains, &x0) {
@@ -347,6 +391,7 @@ fn nuts_case(rep: &mut Report, case: u64, g: &mut Sm64) {
 }
 
 pub fn run(ctx: &Ctx, rep: &mut Report) {
+    SCAN_EVERY.store(if ctx.thorough { 96 } else { 4 }, std::sync::atomic::Ordering::Relaxed);
     for c in ctx.case_ids("streams", 400, 1_000_000) {
         let mut g = ctx.rng("streams", c);
         match c % 8 {
